@@ -29,7 +29,7 @@ for name in sorted(os.listdir(SEEDED)):
     if rc != 0:
         rc, out = sh("git -C /repo apply -3 %s" % os.path.join(d, "patch.diff"))
     if rc != 0:
-        sh("git -C /repo checkout -- . ; git -C /repo reset -q")
+        sh("git -C /repo reset -q ; git -C /repo checkout -- .")
         meta["sweep"] = "patch no longer applies to the current tree"
         json.dump(meta, open(mp, "w"), indent=1)
         rows.append((name, "n/a", "patch no longer applies"))
@@ -43,7 +43,7 @@ for name in sorted(os.listdir(SEEDED)):
             if rc == 1 and any("VIOLATION" in l for l in lines):
                 detected.append(chk + (" (no-failing-input-found)" if any("no-failing-input-found" in l for l in lines) else ""))
     finally:
-        sh("git -C /repo checkout -- . ; git -C /repo reset -q")
+        sh("git -C /repo reset -q ; git -C /repo checkout -- .")
     meta["detected_by_check"] = detected
     meta["sweep_lines"] = res
     meta.pop("sweep", None)
